@@ -5,6 +5,8 @@ where edit is the reference editor (gen.overrides.apply_overrides); both
 sides are decided by the real loader.
 """
 
+import os
+
 from . import conf_common as cc
 from ..gen import family, overrides, texts
 from ..mon import outcome
@@ -65,8 +67,13 @@ def key(o):
 def judge(ctx, p, rng):
     import ZConfig
     res = ctx.res
-    if p.exp[0] != "accept" or p.obs[0] != "ok":
+    if p.exp[0] == "unjudged":
         return
+    if p.exp[0] != "accept" or p.obs[0] != "ok":
+        # a text with one fault in it: an override that replaces the
+        # faulty line cures it, any other leaves it rejected - exactly as
+        # the hand-edited text
+        res.count("texts_with_a_fault")
     if not overrides.section_children(p.tree):
         res.count("no_section")
         return
@@ -103,16 +110,24 @@ def judge(ctx, p, rng):
         outs = []
         try:
             ld = cmdline.ExtendedConfigLoader(p.schema)
-            for s_ in specs:
-                ld.addOption(s_)
+            # a source position of the caller's own may come with each
+            # specifier (an options file, say)
+            own_pos = rng.random() < 0.5
+            if own_pos:
+                res.count("options_with_own_position")
+            for n_, s_ in enumerate(specs):
+                if own_pos:
+                    ld.addOption(s_, ("zcv-options.txt", n_ + 1, 4))
+                else:
+                    ld.addOption(s_)
             for _ in (1, 2):
                 try:
                     cfg, _h = ld.loadFile(io.StringIO(p.text))
                     outs.append(("ok", outcome.canon_value(cfg),
                                  [[h_, outcome.canon_value(v_)]
                                   for h_, v_ in _h._handlers]))
-                except ZConfig.ConfigurationError:
-                    outs.append(("reject",))
+                except ZConfig.ConfigurationError as e:
+                    outs.append(("reject", "config", type(e).__name__))
                 except Exception as e:  # noqa
                     outs.append(("reject", "internal", type(e).__name__))
         except ZConfig.ConfigurationError:
@@ -120,7 +135,10 @@ def judge(ctx, p, rng):
         want = key(o_edit)
         for n_, o_ in enumerate(outs):
             if o_[:1] != want[:1] or (o_[0] == "ok" and
-                                      tuple(o_[1:3]) != tuple(want[1:3])):
+                                      tuple(o_[1:3]) != tuple(want[1:3])) \
+                    or (o_[0] == "reject" and len(o_) > 1 and
+                        o_[1] == "internal" and edited is not None and
+                        o_edit[1] == "config"):
                 res.violate("reused-loader-differs-from-edit",
                             dict(case, load=n_ + 1),
                             list(want)[:1], list(o_)[:1],
@@ -147,6 +165,13 @@ def judge(ctx, p, rng):
     if o_edit[0] == "reject" and edited is not None and \
             o_edit[2] == "DataConversionError" and \
             any(i.get("badvalue") for i in infos):
+        # ... "the only thing wrong": without the specifiers that carry an
+        # unconvertible value the load succeeds (another specifier may be
+        # refused first, for a reason of its own and with its own class)
+        rest = [s_ for s_, i_ in zip(specs, infos) if not i_.get("badvalue")]
+        if load_with(p.schema, p.text, rest)[0] != "ok":
+            res.count("badvalue_not_the_only_fault")
+            return
         res.count("badvalue_class_checked")
         if o_over[2] != "DataConversionError":
             res.violate("unconvertible-override-not-a-conversion-error",
@@ -157,9 +182,43 @@ def judge(ctx, p, rng):
 
 
 def check_bad_specs(ctx, schema, rng):
+    import io
     import ZConfig
     from ZConfig import cmdline
     res = ctx.res
+    # ... through the module-level functions as well: a list that holds a
+    # malformed specifier is refused, wherever in the list it stands
+    path = os.path.join(ctx.tmp, "c14-empty.conf")
+    with open(path, "w") as f:
+        f.write("")
+    for spec in BAD_SPECS + ["  ", "\t", " \n"]:
+        for fn, label in (
+                (lambda sp: ZConfig.loadConfigFile(
+                    schema, io.StringIO(""), overrides=sp), "loadConfigFile"),
+                (lambda sp: ZConfig.loadConfig(schema, path, overrides=sp),
+                 "loadConfig")):
+            for lst in ([spec], ["nosuchkey9=v", spec]):
+                res.evaluations += 1
+                res.count("bad_specifiers_via_functions")
+                try:
+                    fn(lst)
+                except ZConfig.ConfigurationSyntaxError as e:
+                    if "nosuchkey9" in str(e):
+                        res.violate("bad-specifier-accepted",
+                                    {"spec": spec, "via": label, "list": lst},
+                                    "refused as a specifier", str(e)[:200])
+                    continue
+                except Exception as e:  # noqa
+                    res.violate("bad-specifier-wrong-error",
+                                {"spec": spec, "via": label, "list": lst},
+                                "ConfigurationSyntaxError for the specifier",
+                                "%s: %s" % (type(e).__name__, e),
+                                vsig="badspec-fn|%s" % type(e).__name__)
+                    continue
+                res.violate("bad-specifier-accepted",
+                            {"spec": spec, "via": label, "list": lst},
+                            "refused", "accepted",
+                            vsig="badspec-fn|accepted")
     for spec in BAD_SPECS:
         res.evaluations += 1
         res.count("bad_specifiers")
@@ -178,7 +237,7 @@ def check_bad_specs(ctx, schema, rng):
 
 
 def fault_plan(rng):
-    return 0
+    return 0 if rng.random() < 0.8 else 1
 
 
 def run_shard(ctx):
